@@ -46,7 +46,7 @@ def run(ctx):
     rng = ctx.rng("c10")
     nmax = 8 if ctx.quick else 10
     mmax = 4 if ctx.quick else 5
-    reps = 250 if ctx.quick else 3000
+    reps = 250 if ctx.quick else 8000
     dims = [(n, m) for n in range(1, nmax + 1) for m in range(1, mmax + 1)]
     for i, (n, m) in enumerate(dims):
         if i % ctx.nshards != ctx.shard:
